@@ -499,10 +499,10 @@ open Res
 /-- one group: 1..4 hex digits -/
 def HexGroup (ds : Bytes) : Prop := ds ≠ [] ∧ ds.length ≤ 4 ∧ ∀ c ∈ ds, isHexDigit c = true
 
-def hexVal (ds : Bytes) : Nat := ds.foldl (fun a d => a * 16 + hexDigitVal d) 0
+def hexGroupVal (ds : Bytes) : Nat := ds.foldl (fun a d => a * 16 + hexDigitVal d) 0
 
 theorem v6Number_lang {ds rest : Bytes} (h : HexGroup ds) (hs : StopF isHexDigit rest) :
-    v6Number (ds ++ rest) = some (hexVal ds, rest) := by
+    v6Number (ds ++ rest) = some (hexGroupVal ds, rest) := by
   obtain ⟨hne, hlen, hd⟩ := h
   unfold v6Number
   simp only [takeWhile_append hd hs]
@@ -510,7 +510,7 @@ theorem v6Number_lang {ds rest : Bytes} (h : HexGroup ds) (hs : StopF isHexDigit
     | nil => exact absurd rfl hne
     | cons _ _ => rfl
   have h2 : ¬ (ds.length > 4) := by omega
-  simp [h1, h2, hexVal]
+  simp [h1, h2, hexGroupVal]
 
 theorem v6Number_colon (r : Bytes) : v6Number (58 :: r) = none := by
   unfold v6Number
@@ -536,7 +536,7 @@ theorem stopHex_colonGroups (gs : List Bytes) (rest : Bytes) (hs : StopF isHexDi
 
 theorem v6Groups_colon : ∀ (gs : List Bytes) (limit idx : Nat) (acc : List Nat) (rest : Bytes), idx > 0 →
     gs.length ≤ limit → (∀ g ∈ gs, HexGroup g) → V6End rest → (gs.length = limit ∨ True) →
-    v6Groups limit idx (colonGroups gs ++ rest) acc = (acc.reverse ++ gs.map hexVal, rest) := by
+    v6Groups limit idx (colonGroups gs ++ rest) acc = (acc.reverse ++ gs.map hexGroupVal, rest) := by
   intro gs
   induction gs with
   | nil =>
@@ -568,13 +568,13 @@ theorem v6Groups_colon : ∀ (gs : List Bytes) (limit idx : Nat) (acc : List Nat
       simp only [hpos, if_true, tokenP_cons]
       rw [v6Number_lang (hg g (by simp)) (stopHex_colonGroups gs rest hend.1)]
       simp only
-      rw [ih n (idx + 1) (hexVal g :: acc) rest (by omega) (by simpa using hlen) (fun x hx => hg x (by simp [hx])) hend (Or.inr trivial)]
+      rw [ih n (idx + 1) (hexGroupVal g :: acc) rest (by omega) (by simpa using hlen) (fun x hx => hg x (by simp [hx])) hend (Or.inr trivial)]
       simp
 
 /-- `limit` reached: the remaining text is not looked at -/
 theorem v6Groups_limit : ∀ (gs : List Bytes) (idx : Nat) (acc : List Nat) (rest : Bytes), idx > 0 →
     (∀ g ∈ gs, HexGroup g) → StopF isHexDigit rest →
-    v6Groups gs.length idx (colonGroups gs ++ rest) acc = (acc.reverse ++ gs.map hexVal, rest) := by
+    v6Groups gs.length idx (colonGroups gs ++ rest) acc = (acc.reverse ++ gs.map hexGroupVal, rest) := by
   intro gs
   induction gs with
   | nil => intro idx acc rest _ _ _; simp [v6Groups, colonGroups]
@@ -588,7 +588,7 @@ theorem v6Groups_limit : ∀ (gs : List Bytes) (idx : Nat) (acc : List Nat) (res
     simp only [hpos, if_true, tokenP_cons]
     rw [v6Number_lang (hg g (by simp)) (stopHex_colonGroups gs rest hs)]
     simp only
-    rw [ih (idx + 1) (hexVal g :: acc) rest (by omega) (fun x hx => hg x (by simp [hx])) hs]
+    rw [ih (idx + 1) (hexGroupVal g :: acc) rest (by omega) (fun x hx => hg x (by simp [hx])) hs]
     simp
 
 /-- text of a run of groups starting without colon: empty, or `g0:g1:...` -/
@@ -598,7 +598,7 @@ def groupsText : List Bytes → Bytes
 
 theorem v6Groups_start (gs : List Bytes) (limit : Nat) (rest : Bytes) (hlen : gs.length ≤ limit)
     (hg : ∀ g ∈ gs, HexGroup g) (hend : V6End rest) (hfirst : gs = [] → v6Number rest = none) :
-    v6Groups limit 0 (groupsText gs ++ rest) [] = (gs.map hexVal, rest) := by
+    v6Groups limit 0 (groupsText gs ++ rest) [] = (gs.map hexGroupVal, rest) := by
   cases gs with
   | nil =>
     cases limit with
@@ -616,15 +616,15 @@ theorem v6Groups_start (gs : List Bytes) (limit : Nat) (rest : Bytes) (hlen : gs
       simp only [Nat.lt_irrefl, gt_iff_lt, if_false]
       rw [v6Number_lang (hg g (by simp)) (stopHex_colonGroups gs rest hend.1)]
       simp only
-      rw [v6Groups_colon gs n 1 [hexVal g] rest (by omega) (by simpa using hlen) (fun x hx => hg x (by simp [hx])) hend (Or.inr trivial)]
+      rw [v6Groups_colon gs n 1 [hexGroupVal g] rest (by omega) (by simpa using hlen) (fun x hx => hg x (by simp [hx])) hend (Or.inr trivial)]
       simp
 
 /-- IPv6 text: eight groups, or a head and a tail of groups around `::` (at most seven in all) -/
 inductive V6Text : Bytes → List Nat → Prop
-  | full (gs : List Bytes) : gs.length = 8 → (∀ g ∈ gs, HexGroup g) → V6Text (groupsText gs) (gs.map hexVal)
+  | full (gs : List Bytes) : gs.length = 8 → (∀ g ∈ gs, HexGroup g) → V6Text (groupsText gs) (gs.map hexGroupVal)
   | compressed (hs ts : List Bytes) : hs.length + ts.length ≤ 7 → (∀ g ∈ hs, HexGroup g) → (∀ g ∈ ts, HexGroup g) →
       V6Text (groupsText hs ++ 58 :: 58 :: groupsText ts)
-        (hs.map hexVal ++ List.replicate (8 - hs.length - ts.length) 0 ++ ts.map hexVal)
+        (hs.map hexGroupVal ++ List.replicate (8 - hs.length - ts.length) 0 ++ ts.map hexGroupVal)
 
 theorem ipv6FromStr_text {s : Bytes} {gs : List Nat} (h : V6Text s gs) : ipv6FromStr s = some ((gs.map put16).flatten) := by
   cases h with
@@ -639,10 +639,10 @@ theorem ipv6FromStr_text {s : Bytes} {gs : List Nat} (h : V6Text s gs) : ipv6Fro
     have h1 := v6Groups_start hs 8 (58 :: 58 :: groupsText ts) (by omega) hgh (v6End_dcolon _)
       (fun _ => v6Number_colon _)
     rw [h1]
-    have hne8 : ((hs.map hexVal).length == 8) = false := by simp; omega
+    have hne8 : ((hs.map hexGroupVal).length == 8) = false := by simp; omega
     simp only [hne8, Bool.false_eq_true, if_false, tokenP_cons]
     have hfirst : ts = [] → v6Number ([] : Bytes) = none := by intro _; simp [v6Number]
-    have h2 := v6Groups_start ts (8 - ((hs.map hexVal).length + 1)) [] (by simp; omega) hgt v6End_nil hfirst
+    have h2 := v6Groups_start ts (8 - ((hs.map hexGroupVal).length + 1)) [] (by simp; omega) hgt v6End_nil hfirst
     simp only [List.append_nil] at h2
     rw [h2]
     simp
